@@ -96,6 +96,11 @@ CHECKS = {
             "Every generated case is executed by probe binaries compiled against the library under all 12 feature combinations; each probe checks its answers against shadow model / definitional oracle and emits a canonical transcript that must equal the default build's (documented exception excluded).",
             "Only the library's feature matrix; transcripts are handle-free (semantic) so that harmless renumbering is not reported.",
             "DESIGN.md §6 C12"),
+    "C16": ("exploration",
+            "black-box property-based testing (proptest request sequences) of the real server binary against an in-harness MongoDB wire-protocol stub, answers compared with the truth-table oracle",
+            "Generated codes (well-formed, malformed, undeclared statement) x parsing x request orders over all six strategies are sent over HTTP to the server built from the current tree; returned models and graphs are checked against the definitional answers and by evaluating the graphs under all consistent assignments; error reporting, 409/400 status and running_tasks are checked.",
+            "'Eventually' is bounded polling (INCONCLUSIVE, exit 2, when a task is still listed as running after the bound). Trusts the Mongo stub's query semantics and oracle.rs.",
+            "DESIGN.md §6 C16"),
 }
 
 PENDING = {}
